@@ -115,7 +115,7 @@ CHECKS = {
              "hundreds of real expansions (generic contracts, interfaces with associated types) vs the model and vs an independent python statement.",
         design="§8 C15",
         technique="Lean 4 proof (membership characterisations) + L1 differential on real expansions",
-        note=TB + " Partial for the 'can be built/encoded/dispatched with just those types' clause: compiled generic contracts are not yet in the L2 corpus. Known limitation: projections T::Assoc (D9)."),
+        note=TB + " The 'can be named, built, encoded and dispatched with just those types' clause is exercised on nine compiled configurations of generic interfaces / generic contract (stream L2-generic-programs), not proved. Known limitation: projections T::Assoc."),
     "C17": dict(
         text="Machine-checked proofs on the model of the emitters: an attribute forwarded to a kind is on the type of exactly that kind (kind word read through the table "
              "regenerated from attr.rs, obligation: same vocabulary as sv::msg), handler-forwarded attributes are on that handler's variant in order, argument attributes are "
